@@ -101,3 +101,61 @@ logical_or = Contract(
 CONTRACTS = [logical_and, logical_or, builder_const, builder_arith, builder_decider, is_bool_callee]
 TRUSTED = ["IR denotation `irden` (DESIGN §3.1): an IRArith denotes fa(op, den(left), den(right)), an IRDecider with a constant output "
            "k denotes (cmp ? k : 0), an IRConst denotes its value — the meaning given to the IR by S2 when every operand is read in isolation"]
+
+# =================================================================================================
+# _is_boolean_producer: `True` only for references whose value is 0 or 1 — under IR consistency
+# (the node a reference points to denotes the reference's value, per `irden`).
+# =================================================================================================
+_IRNODE = ty.TOpt(ty.TObj("IRNode", only=("IRDecider", "IRConst", "IRArith", "IRWireMerge", "IRMemRead")))
+
+
+def _get_operation_effect(ex, a):
+    ref = ex.args_ns.ref
+    return ghost(ref, "node", _IRNODE)
+
+
+get_operation = Contract(qualname=IRB + "get_operation", params={"self": _OPQ, "node_id": ty.Str}, effect=_get_operation_effect,
+                         verify=False, note="dictionary lookup; the node returned for a reference's source_id is the producer of that reference")
+
+_VREF_SI = ty.TUnion((ty.TObj("SignalRef", only=("SignalRef",)), ty.Int))
+
+
+def _ir_consistent(a):
+    """IR consistency premise (irden): what the producer node of `ref` says about den(ref)."""
+    ref = a.ref
+    if not isinstance(ref, SObj):
+        return True
+    op = ref._fields.get("@node")
+    if op is None:
+        return True
+    d = den(ref)
+    if isa(op, "IRDecider"):
+        ov = op.output_value
+        if isinstance(ov, SObj):
+            return True
+        # IR well-formedness: a decider referenced through a SignalRef copies its input count only when
+        # its output value is a signal (IRBuilder.decider callers); with a constant output it denotes cmp ? k : 0
+        return And(Not(op.copy_count_from_input), Or(d == 0, d == ov))
+    if isa(op, "IRConst"):
+        return d == op.value
+    if isa(op, "IRArith"):
+        l, r = op.left, op.right
+        cs = [Implies(op.op == "*", d == A.wrap32(den(l) * den(r)))]
+        if not isinstance(r, SObj):
+            cs.append(Implies(And(op.op == "+", r == 0), d == den(l)))
+        return And(*cs)
+    return True
+
+
+is_boolean_producer = Contract(
+    qualname=EL + "_is_boolean_producer",
+    params={"self": ty.TObj("ExpressionLowerer", only=("ExpressionLowerer",)), "ref": _VREF_SI},
+    ensures=[("True only if the referenced value is 0 or 1 (given IR consistency)",
+              lambda a, res: Implies(And(_ir_consistent(a), res), Or(den(a.ref) == 0, den(a.ref) == 1)))],
+    uses={"IRBuilder.get_operation": get_operation, "ExpressionLowerer._is_boolean_producer": is_bool_callee},
+    dynamic_types={"self": _SELF_T},
+    properties=("C01",), min_obligations=5,
+)
+_NODE_TYPES = {"output_value": _VREF_SI, "copy_count_from_input": ty.Bool, "value": ty.Int, "op": ty.Str, "left": _VREF_SI, "right": _VREF_SI}
+
+CONTRACTS += [is_boolean_producer, get_operation]
